@@ -177,5 +177,77 @@ pub proof fn lemma_header_only_never_selected(status: int)
     assert(s & 4u64 == 0 && s & 8u64 == 0 ==> !(s & 12u64 > 0)) by(bit_vector);
 }
 
+
+// ---- C03: "independent of the byte width of heights, file numbers and offsets": Bitcoin Core's WriteVarInt
+//      (MSB base-128, every byte but the last has 0x80 set, each prefix stores value-1) decodes back to n ------
+/// bytes WriteVarInt emits BEFORE the last one for a value whose remaining quotient is m (all with 0x80 set)
+pub open spec fn enc_pre(m: nat) -> Seq<u8>
+    decreases m
+{
+    if m < 128 { seq![(m + 128) as u8] } else { enc_pre((m / 128 - 1) as nat) + seq![(m % 128 + 128) as u8] }
+}
+/// Bitcoin Core's VarInt encoding of n
+pub open spec fn core_varint_enc(n: nat) -> Seq<u8> {
+    if n < 128 { seq![n as u8] } else { enc_pre((n / 128 - 1) as nat) + seq![(n % 128) as u8] }
+}
+/// decoding the continuation bytes of m from accumulator 0 arrives at accumulator m + 1, consuming exactly them
+pub proof fn lemma_dec_pre(m: nat, tail: Seq<u8>)
+    requires m + 1 <= 0x1ff_ffff_ffff_ffff,
+    ensures
+        vi(enc_pre(m) + tail, 0, 0) == vi(enc_pre(m) + tail, enc_pre(m).len() as int, m as int + 1),
+        fits(enc_pre(m) + tail, 0, 0) == fits(enc_pre(m) + tail, enc_pre(m).len() as int, m as int + 1),
+        enc_pre(m).len() >= 1,
+    decreases m
+{
+    let s = enc_pre(m) + tail;
+    if m < 128 {
+        assert(enc_pre(m) =~= seq![(m + 128) as u8]);
+        assert(s[0] == (m + 128) as u8);
+        assert(vi(s, 0, 0) == vi(s, 1, m as int + 1));
+        assert(fits(s, 0, 0) == fits(s, 1, m as int + 1));
+    } else {
+        let q = (m / 128 - 1) as nat;
+        let last = (m % 128 + 128) as u8;
+        let t2 = seq![last] + tail;
+        lemma_dec_pre(q, t2);
+        assert(enc_pre(m) =~= enc_pre(q) + seq![last]);
+        assert(enc_pre(q) + t2 =~= s);
+        let p = enc_pre(q).len() as int;
+        assert(s[p] == last);
+        assert(vi(s, p, q as int + 1) == vi(s, p + 1, (q as int + 1) * 128 + (last as int) % 128 + 1));
+        assert((q as int + 1) * 128 + (last as int) % 128 == m as int);
+        assert(fits(s, p, q as int + 1) == fits(s, p + 1, m as int + 1));
+        assert(enc_pre(m).len() == p + 1);
+    }
+}
+/// round trip: read_varint's specification decodes WriteVarInt(n) to n, for every n < 2^64, consuming exactly the
+/// encoding, and the no-overflow precondition `fits` holds -- whatever the number of bytes the value needs
+pub proof fn lemma_core_varint_roundtrip(n: nat, tail: Seq<u8>)
+    requires n <= u64::MAX,
+    ensures
+        //# C03:varint_width_independence
+        vi(core_varint_enc(n) + tail, 0, 0) == Some((n as int, core_varint_enc(n).len() as int)),
+        fits(core_varint_enc(n) + tail, 0, 0),
+{
+    let s = core_varint_enc(n) + tail;
+    if n < 128 {
+        assert(core_varint_enc(n) =~= seq![n as u8]);
+        assert(s[0] == n as u8);
+    } else {
+        let q = (n / 128 - 1) as nat;
+        let last = (n % 128) as u8;
+        let t2 = seq![last] + tail;
+        lemma_dec_pre(q, t2);
+        assert(core_varint_enc(n) =~= enc_pre(q) + seq![last]);
+        assert(enc_pre(q) + t2 =~= s);
+        let p = enc_pre(q).len() as int;
+        assert(s[p] == last);
+        assert(vi(s, p, q as int + 1) == Some(((q as int + 1) * 128 + last as int, p + 1)));
+        assert((q as int + 1) * 128 + last as int == n as int);
+        assert(fits(s, p, q as int + 1));
+        assert(core_varint_enc(n).len() == p + 1);
+    }
+}
+
 } // verus!
 fn main() {}
